@@ -65,35 +65,7 @@ func nontrivial(f *tgen.File) bool {
 	return ctl && len(kinds) >= 2
 }
 
-func canon(out []byte) (string, error) {
-	toks, err := htmltok.Tokens(out)
-	if err != nil {
-		return "", err
-	}
-	var sb strings.Builder
-	for _, t := range toks {
-		switch t.Type {
-		case "start", "selfclosing":
-			sb.WriteString("\x00<" + t.Name)
-			for _, a := range t.Attrs {
-				fmt.Fprintf(&sb, " %s=%q", a.Name, a.Val)
-			}
-			if t.Type == "selfclosing" {
-				sb.WriteString("/")
-			}
-			sb.WriteString(">\x01")
-		case "end":
-			sb.WriteString("\x00</" + t.Name + ">\x01")
-		case "comment":
-			sb.WriteString("\x00<!--" + t.Data + "-->\x01")
-		case "doctype":
-			sb.WriteString("\x00<!doctype " + t.Data + ">\x01")
-		case "text":
-			sb.WriteString(t.Data)
-		}
-	}
-	return sb.String(), nil
-}
+func canon(out []byte) (string, error) { return htmltok.Canon(out) }
 
 // decideCompile: accepted => generated Go type-checks.
 func decideCompile(f *tgen.File) (accepted bool, err error) {
